@@ -325,6 +325,56 @@ private:
   bool have_last_ = false;
   T last_{};
 };
+// a user distribution whose param_type can ALSO be built from an initializer list (then it draws from the listed values
+// only): the wrapper has to construct it from the interval (min, max)
+template <class T>
+class listy_dist
+{
+public:
+  using result_type = T;
+  struct param_type
+  {
+    using distribution_type = listy_dist;
+    T lo, hi;
+    bool from_list = false;
+    param_type(T a, T b) : lo(a), hi(b) {}
+    param_type(std::initializer_list<T> l) : lo(*l.begin()), hi(*(l.end() - 1)), from_list(true) {}
+    T a() const { return lo; }
+    T b() const { return hi; }
+    friend bool operator==(param_type const &x, param_type const &y) { return x.lo == y.lo && x.hi == y.hi && x.from_list == y.from_list; }
+    friend bool operator!=(param_type const &x, param_type const &y) { return !(x == y); }
+  };
+  explicit listy_dist(param_type const &p) : p_(p) {}
+  template <class G>
+  T operator()(G &g)
+  {
+    std::uniform_int_distribution<T> d(p_.lo, p_.hi);
+    T const x = d(g);
+    if (!p_.from_list)
+      return x;
+    return (x - p_.lo) * 2 < (p_.hi - p_.lo) ? p_.lo : p_.hi; // only the listed values
+  }
+  void reset() {}
+  T min() const { return p_.lo; }
+  T max() const { return p_.hi; }
+  T a() const { return p_.lo; }
+  T b() const { return p_.hi; }
+  param_type param() const { return p_; }
+  void param(param_type const &p) { p_ = p; }
+  friend bool operator==(listy_dist const &l, listy_dist const &r) { return l.p_ == r.p_; }
+  friend bool operator!=(listy_dist const &l, listy_dist const &r) { return !(l == r); }
+
+private:
+  param_type p_;
+};
+struct listy_wrapper
+{
+  template <class T>
+  struct apply
+  {
+    using type = listy_dist<T>;
+  };
+};
 struct norepeat_wrapper
 {
   template <class T>
@@ -873,9 +923,10 @@ void container_entry()
   std::uint64_t idx = 0;
   char const *const hows[] = {"make_uniform_container", "make_uniform_container_advanced<uniform_int_wrapper>",
                               "make_uniform_container_advanced<user distribution>", "uniform_container(ref,param)",
-                              "make_uniform_container_advanced<stateful user distribution>"};
+                              "make_uniform_container_advanced<stateful user distribution>",
+                              "make_uniform_container_advanced<user distribution with a list-constructible param_type>"};
   for (std::size_t n = 0; n <= 6; ++n)
-    for (unsigned how = 0; how < 5; ++how)
+    for (unsigned how = 0; how < 6; ++how)
     {
       // how == 3: every sub-interval of indices [ia,ib] of the container through the constructor
       std::size_t const subs = how == 3 ? n * (n + 1) / 2 : 1;
@@ -907,7 +958,7 @@ void container_entry()
           std::string const key = std::string(how == 0   ? "make_uniform_container<"
                                               : how == 3 ? "uniform_container<"
                                                          : "make_uniform_container_advanced<") +
-                                  cname + (how == 2 ? ",user-distribution>" : how == 4 ? ",stateful-user-distribution>" : ">");
+                                  cname + (how == 2 ? ",user-distribution>" : how == 4 ? ",stateful-user-distribution>" : how == 5 ? ",list-constructible-param>" : ">");
           // draws from w (an fcppt::random::wrapper::uniform_container) are judged against indices [ia,ib]
           // sd: the wrapped distribution itself, drawn from with the std engine (the reference sequence)
           auto const draw_all = [&](auto &w, auto sd) {
@@ -989,6 +1040,11 @@ void container_entry()
             VF_COUNT("container/stateful-user-distribution");
             run_opt(fr::wrapper::make_uniform_container_advanced<norepeat_wrapper>(ref),
                     norepeat_dist<ST>(typename norepeat_dist<ST>::param_type(static_cast<ST>(ia), static_cast<ST>(ib))));
+            break;
+          case 5:
+            VF_COUNT("container/list-constructible-param");
+            run_opt(fr::wrapper::make_uniform_container_advanced<listy_wrapper>(ref),
+                    listy_dist<ST>(typename listy_dist<ST>::param_type(static_cast<ST>(ia), static_cast<ST>(ib))));
             break;
           default:
           {
